@@ -25,7 +25,7 @@ import (
 )
 
 const (
-	softMs    = 3000  // CPU ms on one input before the solo re-run (observed maximum: tens of ms)
+	softMs    = 5000  // CPU ms on one input before the solo re-run (observed maximum: tens of ms)
 	hardMs    = 60000 // CPU ms of the solo re-run; beyond it an input <= 16 KB is a hang
 	hangLimit = 16 << 10
 	maxHangs  = 3 // confirmed hangs after which the sweep stops (each costs > 60 CPU-seconds)
@@ -108,7 +108,7 @@ func buildInputs(c *core.Ctx) ([]input, map[string]bool) {
 		for k := c.Pick(4, 12); k > 0; k-- {
 			add(s.Name+"+wide", "multibyte-before-expression", ptree.WideBefore(r, w))
 		}
-		for k := c.Pick(40, 2200); k > 0; k-- {
+		for k := c.Pick(250, 2500); k > 0; k-- {
 			base := w
 			if !s.Whole && k%4 == 0 {
 				base = s.Text // the fragment on its own, as the table tests feed it to sub-parsers
@@ -118,7 +118,7 @@ func buildInputs(c *core.Ctx) ([]input, map[string]bool) {
 	}
 	// generated programs (every slot, multi-line, multi-byte) and their truncations
 	gr := c.Rand("programs")
-	for i := c.Pick(80, 600); i > 0; i-- {
+	for i := c.Pick(200, 1500); i > 0; i-- {
 		p := ptree.GenProgram(rand.New(rand.NewSource(gr.Int63())))
 		add("gen", "generated", p)
 		for j := gr.Intn(11); j < len(p); j += 11 {
@@ -129,7 +129,7 @@ func buildInputs(c *core.Ctx) ([]input, map[string]bool) {
 		}
 	}
 	rr := c.Rand("random")
-	for i := c.Pick(12000, 300000); i > 0; i-- {
+	for i := c.Pick(40000, 400000); i > 0; i-- {
 		add("random", "random-bytes", ptree.RandomBytes(rr))
 		add("soup", "token-soup", ptree.TokenSoup(rr))
 	}
@@ -185,7 +185,7 @@ func firstKind(al []ptree.Alarm) (ptree.Alarm, bool) {
 
 func Run(c *core.Ctx) {
 	c.Rule = "inputs = repository .templ files, parser test data (txtar sections) and table-test literals found at run time (raw and wrapped in a template), every truncation of them (stride 1 up to 1.5 KB, 7 above), CRLF variants and their truncations, multi-byte text inserted before expression openers, token-dictionary mutations (insert/delete/duplicate/replace/unbalance/swap/cut), generated every-slot programs with truncations and mutations, seeded random bytes and token soups; each is parsed in a child process; totality oracle = no recovered panic, no fatal crash, CPU time of the input under the budget, parse.ParseError index within 0..len(input); position oracle (inputs that parse, generate and gofmt) = rules P1-P4 of checks/c06/oracle.go; non-trivial = input not equal to a corpus text that either fails to parse or carries at least one Go expression (distinct by hash)"
-	c.Assume("termination is judged by CPU time of the child (getrusage), not wall time: soft budget 3 CPU-s per input, solo re-run with 60 CPU-s; the loop-progress hook H1 of DESIGN 2.3 is not in the tree, so a livelock is seen only through the budget")
+	c.Assume("termination is judged by CPU time of the child (getrusage), not wall time: soft budget 5 CPU-s per input (CPU clock of the parsing thread), solo re-run with 60 CPU-s; the loop-progress hook H1 of DESIGN 2.3 is not in the tree, so a livelock is seen only through the budget")
 	c.Assume("positions are (byte index, line = count of LF before it, byte column), as produced by github.com/a-h/parse Input.PositionAt")
 	if c.ReplayFile != "" {
 		replay(c)
